@@ -479,6 +479,8 @@ ARTEFACTS = {
     "iso_kb1_q": ["isolation", "kb1", "32", "{out}"],
     "iso_kb2_t": ["isolation", "kb2", "3", "{out}"],
     "iso_kb1_t": ["isolation", "kb1", "3", "{out}"],
+    "tr_sys3_kb2": ["trace", "systematic", "kb2", "3", "{out}"],
+    "tr_sys4_kb2": ["trace", "systematic", "kb2", "4", "{out}"],
     "t_words": ["table", "words", "{out}"],
     "t_layouts": ["table", "layouts", "{out}"],
     "t_preds": ["table", "preds", "{out}"],
@@ -550,6 +552,11 @@ JOBS = {
     "tracespec_kb1_long": dict(kind="tlc", module="Trace_KeyboardSpec", cfg="Trace_KeyboardSpec.cfg", workers=1, cont=False,
                                heap="16g", timeout=3600, jvm=["-Dtlc2.tool.queue.IStateQueue=StateDeque"],
                                env={"TRACE": "art:tr_noise_kb1_long", "COMP": "kb1"}),
+    "tracespec_sys3": dict(kind="tlc", module="Trace_KeyboardSpec", cfg="Trace_KeyboardSpec.cfg", workers=1, cont=False,
+                           jvm=["-Dtlc2.tool.queue.IStateQueue=StateDeque"], env={"TRACE": "art:tr_sys3_kb2", "COMP": "kb2"}),
+    "tracespec_sys4": dict(kind="tlc", module="Trace_KeyboardSpec", cfg="Trace_KeyboardSpec.cfg", workers=1, cont=False,
+                           heap="16g", timeout=3600,
+                           jvm=["-Dtlc2.tool.queue.IStateQueue=StateDeque"], env={"TRACE": "art:tr_sys4_kb2", "COMP": "kb2"}),
     "trace_kb2_long": dict(kind="tlc", module="Trace_Keyboard", cfg="Trace_Keyboard.cfg", workers=1, heap="16g", timeout=3600, cont=False,
                            jvm=["-Dtlc2.tool.queue.IStateQueue=StateDeque"],
                            env={"TRACE": "art:tr_noise_kb2_long", "COMP": "kb2", "FGRAPH": "art:g_frame", "SGRAPH": "art:g_set2", "EGRAPH": "art:g_event", "WORDS": "art:t_words"}),
@@ -646,10 +653,10 @@ PROPS = {
     "C09": dict(quick=["conf_layouts_model", "conf_layouts"], tables=["t_layouts"]),
     "C10": dict(quick=["conf_layouts_model", "conf_layouts"], tables=["t_layouts"]),
     "C11": dict(quick=["conf_layouts_model", "conf_layouts", "conf_preds"], tables=["t_layouts", "t_preds"]),
-    "C04": dict(quick=["mc_event", "conf_event", "conf_kb2_events", "replay_event_q", "tracespec_kb2"],
-                thorough=["mc_event", "conf_event", "conf_kb2_events", "replay_event_t", "tracespec_kb2_long"], graphs=["g_event", "g_kb2_events"]),
-    "C14": dict(quick=["mc_event", "conf_event", "conf_kb2_events", "replay_event_q", "tracespec_kb2", "conf_eventlayouts"],
-                thorough=["mc_event", "conf_event", "conf_kb2_events", "replay_event_t", "tracespec_kb2_long", "conf_eventlayouts"], graphs=["g_event", "g_kb2_events"]),
+    "C04": dict(quick=["mc_event", "conf_event", "conf_kb2_events", "replay_event_q", "tracespec_kb2", "tracespec_sys3"],
+                thorough=["mc_event", "conf_event", "conf_kb2_events", "replay_event_t", "tracespec_kb2_long", "tracespec_sys4"], graphs=["g_event", "g_kb2_events"]),
+    "C14": dict(quick=["mc_event", "conf_event", "conf_kb2_events", "replay_event_q", "tracespec_kb2", "conf_eventlayouts", "tracespec_sys3"],
+                thorough=["mc_event", "conf_event", "conf_kb2_events", "replay_event_t", "tracespec_kb2_long", "conf_eventlayouts", "tracespec_sys4"], graphs=["g_event", "g_kb2_events"]),
     "C08": dict(quick=["mc_frame", "conf_frame", "conf_words", "conf_set1", "conf_set2", "conf_kb1_bytes",
                        "conf_kb2_bytes", "conf_event", "conf_kb2_events", "conf_layouts", "conf_eventlayouts", "conf_frame_default", "conf_set1_default", "conf_set2_default", "replay_frame_q", "replay_set1_q", "replay_set2_q", "replay_event_q"],
                 graphs=["g_frame", "g_set1", "g_set2", "g_kb1_bytes", "g_kb2_bytes", "g_event", "g_kb2_events"],
